@@ -287,3 +287,33 @@ def rejectable(m_in, table):
         if sig + (need or 0) + (a.hcount or 0) > oread.capacity(table, a):
             return True
     return False
+
+
+import warnings
+
+
+def run_corpus(decoder, encoder, DecoderError, EncoderError, sel, smi):
+    out = []
+    with warnings.catch_warnings():
+        warnings.simplefilter("ignore")
+        for x in sel:
+            for comp in (False, True):
+                for attr in (False, True):
+                    try:
+                        r = decoder(x, compatible=comp, attribute=attr)
+                        out.append(repr(r))
+                    except DecoderError:
+                        out.append("DecoderError")
+                    except Exception as ex:  # noqa
+                        out.append("exc:" + type(ex).__name__)
+        for s in smi:
+            for strict in (False, True):
+                for attr in (False, True):
+                    try:
+                        r = encoder(s, strict=strict, attribute=attr)
+                        out.append(repr(r))
+                    except EncoderError:
+                        out.append("EncoderError")
+                    except Exception as ex:  # noqa
+                        out.append("exc:" + type(ex).__name__)
+    return out
